@@ -139,6 +139,12 @@ class EarliestStartTimeObserver(FeatureObserver):
         self._update_earliest_start_times()
         self.initialize_features()
 
+    def reset(self):
+        """Recomputes the earliest start times from the (already reset)
+        dispatcher and resets the features."""
+        self._update_earliest_start_times()
+        super().reset()
+
     def _update_earliest_start_times(self):
         """Recomputes the earliest start time of every unscheduled operation
         from the current state of the dispatcher.
